@@ -396,7 +396,12 @@ def check_case(case, ctx):
         elif op == "autograd":
             g = np.random.default_rng(st["gseed"])
             gts = [torch.tensor(g.standard_normal(tuple(o.shape)), dtype=torch.float64).to(dtype) for o in w.C.outputs]
-            torch.autograd.backward(w.C.outputs, grad_tensors=gts, inputs=[w.L[j] for j in st["inputs"]], retain_graph=True)
+            try:
+                torch.autograd.backward(w.C.outputs, grad_tensors=gts, inputs=[w.L[j] for j in st["inputs"]], retain_graph=True)
+            except RuntimeError as e:
+                # torch.autograd accumulating into the .grad fields that torchjd left behind is an ordinary user step
+                vio = ("grad_left_by_torchjd_cannot_be_used_by_the_caller", {"step": label, "operation": "torch.autograd.backward", "error": repr(e)[:300]})
+                break
             for j in st["inputs"]:
                 shadow[j] = None if w.L[j].grad is None else w.L[j].grad.detach().clone()
                 hist_flags.add(("autograd", j))
@@ -404,6 +409,12 @@ def check_case(case, ctx):
         else:
             j = st["leaf"]
             l = w.L[j]
+            if op in ("zero", "edit") and l.grad is not None:
+                try:  # in-place edits of .grad (zeroing, clipping, un-scaling) are ordinary user steps: they must work
+                    l.grad.add_(0.0)
+                except RuntimeError as e:
+                    vio = ("grad_left_by_torchjd_cannot_be_used_by_the_caller", {"step": label, "operation": f"in-place {op}", "error": repr(e)[:300]})
+                    break
             if op == "zero" and l.grad is not None:
                 l.grad.zero_()
                 shadow[j] = torch.zeros_like(shadow[j])
